@@ -215,7 +215,9 @@ fn hit_rate(k: usize, j: usize, depth: usize, seed: u64, iters: usize, acc: &mut
     let total = used.len() as f64;
     let rate = hits as f64 / total;
     acc.add("hit_rate_experiments", 1);
-    if acc.samples.len() < 4 {
+    {
+        let bound = 1.0 / (n * (ksteps as f64).powi(depth as i32 - 1));
+        acc.notes.push(format!("hit-rate: k_increments={k} j={j} bug_depth={bug_depth} pct_depth={depth} n=3 k_steps={ksteps} iterations={} hits={hits} rate={rate:.5} guaranteed={:.5}", used.len(), if depth >= bug_depth { bound } else { 0.0 }));
         acc.samples.push(json!({"kind": "hit-rate", "k_increments": k, "j": j, "pct_depth": depth, "bug_depth": bug_depth, "k_steps": ksteps, "iterations": used.len(), "hits": hits, "rate": rate}));
     }
     if depth >= bug_depth {
